@@ -73,7 +73,10 @@ def realise(ir, reg):
     from glom.matching import Switch
     k = ir[0]
     if k == 'leaf':
-        sp = glom.Val(ir[1]) if ir[2] else glom.T['FAIL_%d' % ir[1]]
+        if ir[2] and ir[1] % 3 == 0:
+            sp = mk_copy(ir[1], reg)          # succeeds with a NEW object that is equal to the one it received
+        else:
+            sp = glom.Val(ir[1]) if ir[2] else glom.T['FAIL_%d' % ir[1]]
     elif k == 'switch':
         sp = Switch([(realise(a, reg), realise(b, reg)) for a, b in ir[2]])
     else:
@@ -92,6 +95,18 @@ def realise(ir, reg):
     return sp
 
 
+def mk_copy(sid, reg):
+    def copy_leaf(t):
+        if isinstance(t, dict):
+            o = dict(t)
+            reg['made'][id(o)] = 2000 + sid
+            reg['keep'].append(o)
+            return o
+        return sid
+    copy_leaf.__name__ = 'copy%d' % sid
+    return copy_leaf
+
+
 def depth_of(ir):
     if ir[0] == 'leaf':
         return 0
@@ -108,8 +123,10 @@ def has_branch(ir):
     return any(has_branch(x) for x in ir[2])
 
 
-def target_id(t):
-    if isinstance(t, dict) and t == ROOT:
+def target_id(t, reg):
+    if id(t) in reg['made']:
+        return reg['made'][id(t)]
+    if t is reg.get('root'):
         return 7
     if isinstance(t, int) and not isinstance(t, bool):
         return 2000 + t
@@ -120,7 +137,7 @@ def unpack(scope, reg):
     from glom.core import _unpack_stack
     out = []
     for sc, spec, target, error, branches in _unpack_stack(scope):
-        out.append([reg['by_id'].get(id(spec), 0), target_id(target), error is not None, [unpack(b, reg) for b in branches]])
+        out.append([reg['by_id'].get(id(spec), 0), target_id(target, reg), error is not None, [unpack(b, reg) for b in branches]])
     return out
 
 
@@ -145,7 +162,7 @@ def parse_lines(text, reg):
         core = re.sub(r'\.\.\.( \(len=\d+\))?$', '', value)
         if label == 'Target: ':
             if value == repr(ROOT):
-                out.append([prefix, 'target', 7])
+                out.append([prefix, 'target', None])     # the root or an equal copy of it: named by the tree comparison
             elif re.fullmatch(r'-?\d+', value):
                 out.append([prefix, 'target', 2000 + int(value)])
             else:
@@ -158,10 +175,11 @@ def parse_lines(text, reg):
 
 def run_trace(case):
     import glom
-    reg = {'by_id': {}, 'by_sid': {}, 'keep': []}
+    reg = {'by_id': {}, 'by_sid': {}, 'keep': [], 'made': {}}
     spec = realise(case['tree'], reg)
+    reg['root'] = dict(ROOT)
     try:
-        glom.glom(dict(ROOT), spec)
+        glom.glom(reg['root'], spec)
         return {'ok': True}
     except glom.GlomError as e:
         out = {'ok': False, 'tree': unpack(e._scope, reg)}
